@@ -213,6 +213,8 @@ def c09(ck):
         ("known", "interface a.b\nmethod M() -> ()\nerror Self (x: int)\n"),
         # layout: blanks, line ends and comments between a field name and its colon (column-aligned definitions)
         ("clean", "interface a.b\ntype Settings (name   : string,\n  limits : (low: int, high: int),\n  mode\n    : (fast, slow))\nmethod Foo(cfg : (a: int), list\t: [](b : ?(c: bool))) -> (entries\n    : [string](k: string))\n"),
+        ("clean", "# doc\r\ninterface org.example.crlf\r\n\r\n# The ping\r\nmethod Ping(ping: string) -> (pong: string)\r\n"),
+        ("clean", "interface org.example.mixed\r# cr only\rmethod A() -> ()\u2028method B(x: (a, b)) -> ()\n"),
         ("clean", "interface Com.Example-2.MixedCase\ntype T (a: int)\nmethod Get(t: T) -> (t: T)\nerror Nope ()\n"),
         ("clean", "interface a.b\nmethod M(a # the first\n  : (x : int, y: []( z : string ))) -> (r :(q : (p: int)))\nerror E (why # reason\n : string)\n"),
         ("clean", "interface a.b\nmethod M(a: int) -> ()\nerror InterfaceNotFound (interface: string, hint: ?string)\nerror MethodNotImplemented (method: string)\nerror Result ()\nerror Call (x: int)\nerror Reply ()\nerror Kind ()\n"), ("known", "interface a.b\ntype Self (a: int)\nmethod M() -> ()\n"),
@@ -270,6 +272,16 @@ def c09(ck):
             continue
         ck.count("verdict=generated")
         code = unhx(a.split(" ")[1]).decode("utf-8")
+        # the description the generated proxy serves is the definition text, byte for byte
+        gd = re.search(r"""fn get_description \(& self\) -> & 'static str \{ "((?:[^"\\]|\\.)*)" \}""", code)
+        if kind != "mutant" and gd:
+            lit = gd.group(1)
+            dec = re.sub(r"""\\(u\{([0-9a-fA-F]+)\}|.)""", lambda m_: chr(int(m_.group(2), 16)) if m_.group(2) else
+                         {"n": "\n", "r": "\r", "t": "\t", "0": "\0"}.get(m_.group(1), m_.group(1)), lit)
+            if dec != t:
+                k_ = next((j for j in range(min(len(dec), len(t))) if dec[j] != t[j]), min(len(dec), len(t)))
+                ck.failures.append({"what": "the description served by the generated proxy (get_description) is not the definition text verbatim",
+                                    "idl": t[:400], "first_difference_at": k_, "served_there": dec[k_:k_ + 30], "definition_there": t[k_:k_ + 30]})
         # the name the generated proxy registers under is the interface name of the definition, exactly as written
         gn = re.search(r"fn get_name \(& self\) -> & 'static str \{ \"([^\"]*)\" \}", code)
         dn = re.search(r"(?m)^\s*interface\s+([A-Za-z0-9.-]+)", re.sub(r"(?m)#[^\n\r\u2028\u2029]*", "", t))
@@ -427,7 +439,9 @@ def c08_corpora(rng, quick):
             ("option", ("array", ("dict", ("option", ("string",))))), ("array", ("array", ("struct", [("k", ("string",)), ("v", ("option", ("object",)))]))),
             ("dict", ("dict", ("int",))), ("option", ("dict", ("name", "E")))]
     multi = [[("a", ("int",)), ("b", ("option", ("string",))), ("c", ("name", "E"))],
-             [("mod", ("bool",)), ("match", ("option", ("name", "N"))), ("x_y", ("array", ("float",)))]]
+             [("mod", ("bool",)), ("match", ("option", ("name", "N"))), ("x_y", ("array", ("float",)))],
+             # member names with upper-case letters and digits (legal field names): on the wire exactly as in the IDL
+             [("userId", ("int",)), ("displayName", ("option", ("string",))), ("Xy9", ("bool",)), ("tagCount", ("struct", [("innerField", ("int",)), ("B", ("option", ("bool",)))]))]]
     out = [("c8a", Corpus("org.example.c8a", [("S", S), ("E", E), ("N", N)], echo, multi))]
     # systematic: every wrapper chain of length 0..2 over array / map / optional around every kind of element type
     wr = ["array", "dict", "option"]
